@@ -1463,11 +1463,11 @@ def make_machine(backend):
         def corrupt_script(self, how, sw, via):
             self.do({"op": "corrupt", "how": how[0], "arg": how[1]}, {"op": "run", "sw": list(sw), "via": via})
 
-        @rule(how=hows, k=ckinds, t=ctoks, m=modes, sw=code_sws, prime=st.booleans())
+        @rule(how=hows, k=ckinds, t=ctoks, m=modes, sw=code_sws, prime=st.sampled_from([True, True, True, False]))
         def corrupt_code(self, how, k, t, m, sw, prime):
             c = {"op": "code", "kind": k, "tok": t, "mode": m, "sw": list(sw)}
             if prime:
-                self.do(dict(c, sw=list(ALL_ON)))
+                self.do(dict(c, sw=list(ALL_ON), mode="exec" if m == "eval" else m))
             self.do({"op": "corrupt", "target": "code", "kind": k, "tok": t, "mode": m, "how": how[0], "arg": how[1]},
                     dict(c))
 
